@@ -310,3 +310,20 @@ def fresh_dir(name: str) -> Path:
         shutil.rmtree(d)
     d.mkdir(parents=True)
     return d
+
+
+def pool_results(pool, fn, tasks, deadline, grace: float = 30.0):
+    """`pool.imap_unordered(fn, tasks, chunksize=1)` that cannot hang: a worker that dies takes its task with it and the plain
+    iterator would wait for ever; here the wait ends `grace` seconds after the stage deadline and the pool is terminated (the
+    stage then reports what it has explored so far, like any stage that runs into its deadline)."""
+    import multiprocessing
+    import time
+    it = pool.imap_unordered(fn, tasks, chunksize=1)
+    while True:
+        try:
+            yield it.next(timeout=max(5.0, deadline + grace - time.time()))
+        except StopIteration:
+            return
+        except multiprocessing.TimeoutError:
+            pool.terminate()
+            return
